@@ -33,7 +33,9 @@ def same_doc(df, doc):
 def name_of(n):
     # the second stem is realised with a dot inside it when the name has an extension (flow_0.5.csv): Path.stem is then "b_0.5"
     stem = "b_0.5" if (n["stem"] == "b" and n["ext"]) else n["stem"]
-    return n["dir"] + stem + n["ext"]
+    # one of the names with an extension other than .zip is written with an upper-case ZIP extension (x.ZIP is not x.zip)
+    ext = ".ZIP" if (n["ext"] == ".csv" and n["dir"] == "d/" and n["stem"] == "a") else n["ext"]
+    return n["dir"] + stem + ext
 
 
 def replay_store(ctx, csv, d, tmproot, k):
